@@ -73,9 +73,8 @@ def handle (cmd : String) (fs : List String) : String :=
   | "flat", [a] =>
     match readTree a with
     | some t =>
-      match flattenFiles t with
-      | some t' => "1;" ++ " ".intercalate ((Skel.encodeList (erase t')).map toString)
-      | none => "0;" ++ " ".intercalate ((Skel.encodeList (erase t)).map toString)
+      let r := flattenFiles 64 t
+      toString r.2 ++ ";" ++ " ".intercalate ((Skel.encodeList (erase r.1)).map toString)
     | none => "bad-tree"
   | "skel", [a] =>
     match readTree a with
